@@ -45,6 +45,23 @@ CHECKS.append(
      "note": "Trusted: TLC, pysam writing the BAM the harness describes, 12-digit fixed-point encoding of depth and 2**log2. CRAM/--fasta "
              "path and pileup depth on reads with indels are outside the claim. Pool schedules are not controlled; the real pool is run "
              "with 1/2/3/16 workers and lowered chunk sizes."})
+CHECKS.append(
+    {"id": "C01", "level": "model_checking",
+     "technique": "TLA+ spec (Karyotype.tla, Calling.tla: mixing model in ratio space with exact rationals) + TLC exhaustive scope replayed into cnvlib.call.do_call + TLC trace validation of random and CLI runs",
+     "design_ref": "DESIGN.md section 8 C01, 13",
+     "text": "TLC enumerates n x purity x ploidy x chromosome class (incl. real PAR coordinates of grch37/grch38) x reference sex x sample sex x naming x PAR genome, "
+             "checks the modelled call.py algorithm against the statement (cn = n, rescaled log2, nearest integer, cn >= 0), and every enumerated state is executed by the "
+             "real do_call and judged by TLC; random real log2 in [-30,30] and `cnvkit.py call` runs are judged the same way.",
+     "note": "Trusted: TLC, math.log2/2** encoding (tolerance 1e-6, CLI 1e-5), harness table construction. Premise: r > 0, ratio > 0, one naming style per table; "
+             "PAR genome only on the purity < 1 path. The rewritten log2 for odd ploidy is not claimed (the statement excludes it)."})
+CHECKS.append(
+    {"id": "C02", "level": "model_checking",
+     "technique": "TLA+ spec (Calling.tla: threshold step function on rationals with published brackets for the default thresholds, allelic split) + TLC exhaustive scope replayed into do_call (BAF through a real VariantArray) + trace validation of random tables",
+     "design_ref": "DESIGN.md section 8 C02, 13",
+     "text": "TLC enumerates threshold vectors x log2 at, beside and between thresholds and integer crossings x ploidy x class x reference sex x naming x BAF; the real do_call "
+             "output of every state is judged by TLC against the step function, row count, monotonicity, cn(0) = 2 and cn1 + cn2 = cn clauses; random vectors up to length 12.",
+     "note": "Purity on the threshold path not covered. BAF input judged only where the output baf column shows the chosen value. At an exact integer crossing with a "
+             "non-power-of-two ratio both ceilings are accepted. Open finding F-C02-ploidy1-step-drop (the statement's 'hence' fails at ploidy 1)."})
 
 _ALL = [f"C{n:02d}" for n in range(1, 21)]
 _claimed = {c["id"] for c in CHECKS}
